@@ -24,7 +24,8 @@ MANIFEST = {
             "BodyPipe accounting and end-of-production, HttpStateData::sendRequest framing choice, getMoreRequestBody chunk wrapping and last-chunk rule, the end notifications) and EVERY "
             "interleaving of client reads, space notifications, client departure, start of forwarding, notifications and upstream writes: pipe_is_fifo (written ++ buffered = produced), "
             "identity_body_is_client_prefix, upstream_complete_implies_whole_and_equal, early_stop_is_visible (an aborted upstream message has no last-chunk / fewer than Content-Length octets), "
-            "last_chunk_only_after_whole_body, chunked_upstream_wire_is_in_grammar. Tied to the rebuilt binary by end-to-end scenarios whose strict origin-side observation must equal "
+            "last_chunk_only_after_whole_body, chunked_upstream_wire_is_in_grammar, chunked_request_body_is_exact / chunked_request_complete_is_exact (for every grammar-valid chunked "
+            "encoding, any segmentation and any pipe space per parse() call the produced / relayed octets are exactly the encoded body: the pipe's calling pattern is connected to the C24 reference run). Tied to the rebuilt binary by end-to-end scenarios whose strict origin-side observation must equal "
             "the model's, and a direct oracle computed from the scenario alone.",
     "note": "trusted: Lean kernel, python rig, loopback TCP. Not modelled: Comm scheduling, timeouts, adaptation, body size policy, retries",
     "technique": "Lean 4 invariants over event histories of the request relay model + end-to-end scenario correspondence with the rebuilt squid",
